@@ -32,6 +32,9 @@ type Connection struct {
 	// Used to buffer the encrypted bytes of the connection
 	buffered *bufio.Reader
 
+	// Error which made the encrypted connection unusable (e.g. a frame which did not authenticate)
+	readError error
+
 	// Serializes writes. The frames of a message must be encrypted and written to the
 	// connection in one piece, otherwise the frame counters get out of order when
 	// responses and event notifications are written by different goroutines.
@@ -74,6 +77,10 @@ func (con *Connection) EncryptedWrite(b []byte) (int, error) {
 // DecryptedRead reads and decrypts bytes from the connection.
 // The method returns the number of read bytes and an error when reading failed.
 func (con *Connection) DecryptedRead(b []byte) (int, error) {
+	if con.readError != nil {
+		return 0, con.readError
+	}
+
 	for con.readBuffer == nil {
 		if con.buffered == nil {
 			// The same buffered reader is used for the lifetime of the connection,
@@ -105,6 +112,8 @@ func (con *Connection) DecryptedRead(b []byte) (int, error) {
 			} else {
 				log.Debug.Println("Decryption failed:", err)
 				con.connection.Close()
+				// Nothing which is still buffered must be handed out after a failure
+				con.readError = err
 			}
 			return 0, err
 		}
